@@ -418,7 +418,7 @@ func (e *Engine) rangeInit(rc *runCtx, st *State, fr *frame, x *ssa.Range) []con
 		}
 		md := st.root(m.Obj).(*MapData)
 		n := len(md.K)
-		if e.PermuteMaps && n >= 2 && n <= 3 {
+		if e.PermuteMaps && e.Concrete == nil && n >= 2 && n <= 3 {
 			var out []cont
 			for pi, perm := range permutations(n) {
 				ks := make([]Value, n)
